@@ -182,7 +182,13 @@ def plan(rng, tier):
     out.append(["commit"])
     out.append(["sweep", "minimize", 0])
     out.append(["scratch"])
-    return {"cfg": cfg, "ops": out, "pre": pre}
+    # "quiet" runs: the full listing / soundness comparison (which loads
+    # every node) only after every q-th fault-free operation, so that
+    # operations also START from the partly loaded states their
+    # predecessors left behind (the observer must not reload the world
+    # after every step)
+    return {"cfg": cfg, "ops": out, "pre": pre,
+            "quiet": rng.choice([3, 5, 1000]) if rng.random() < 0.4 else 1}
 
 
 def simplify(plan):
@@ -535,6 +541,11 @@ def execute(plan, ctx):
                     "after %r -> %r a %s node is still in the sticky state "
                     "(pinned against eviction)" % (
                         op, got, _node_class(sticky[0], A.c)))
+            quiet = plan.get("quiet", 1)
+            if quiet > 1 and fk == "none" and idx % quiet and \
+                    idx + 1 < len(ops_list):
+                ctx.interleaving((opn, _outcome_class(got), fk))
+                continue
             try:
                 la = ops.listing(A.c, mapping)
                 lb = ops.listing(B.c, mapping)
